@@ -9,6 +9,7 @@ import MutagenModel.Proofs.Container.OggInjectLoad
 import MutagenModel.Proofs.Container.OggInjectTotal
 import MutagenModel.Proofs.Container.OggInjectLoadLink
 import MutagenModel.Proofs.Container.Mp4Total
+import MutagenModel.Proofs.Container.Mp4Chapters
 import MutagenModel.Proofs.Info.Mp4File
 set_option linter.unusedVariables false
 namespace Mutagen.FileTypes
@@ -408,5 +409,9 @@ theorem mp4LoadPure_clean (f : Bytes) : Clean (Mp4C.loadPure f) := by
               rw [mp4ChildrenPure_err _ _ _ hx]; rfl
             · cases he
       · cases h
+
+/-- the complete `MP4(fileobj)`, chapters included -/
+theorem mp4LoadFullPure_clean (f : Bytes) : Clean (Mp4C.loadFullPure f) :=
+  Mp4C.loadFullPure_clean f (mp4LoadPure_clean f)
 
 end Mutagen.FileTypes
